@@ -183,14 +183,46 @@ class Real:
         return ObjectMetadata("HashStoreNoPid", cid, size, dict(digests))
 
     # ------------------------------------------------------------------ execution
+    def _decoys(self):
+        """In the relative-path mode the working directory is the caller's: it may hold files of its own whose
+        names happen to be the address of a stored object. For the duration of one call, every object that is
+        in the store has such a namesake in the working directory (other bytes). Only objects that exist: what
+        the resolver does for an address that holds nothing is not at issue here."""
+        made = []
+        if self._old_cwd is None:
+            return made
+        objs = os.path.join(self.root, "objects")
+        for dp, _dn, fn in os.walk(objs):
+            rel = os.path.relpath(dp, objs)
+            if rel.split(os.sep)[0] == "tmp":
+                continue
+            for f in fn:
+                name = ("" if rel == "." else rel.replace(os.sep, "")) + f
+                if name.endswith("_delete") or os.path.exists(name):
+                    continue
+                try:
+                    with open(name, "wb") as fh:
+                        fh.write(b"a file of the caller's that happens to be named like an address\n")
+                    made.append(name)
+                except OSError:
+                    pass
+        return made
+
     def run(self, call):
         """Execute; return the canonical result line (same format as the driver's)."""
+        decoys = self._decoys() if call.name in ("retrieve_object", "get_hex_digest", "delete_object",
+                                                 "delete_if_invalid_object") else []
         try:
             v = self._invoke(call)
         except Exception as e:  # noqa
             return "err " + exc_name(e)
         finally:
             self.reuse_staging()
+            for n_ in decoys:
+                try:
+                    os.remove(n_)
+                except OSError:
+                    pass
         return "ok " + v
 
     def _invoke(self, call):
